@@ -421,7 +421,7 @@ class _Dispatch(Exception):
         self.token = token
 
 
-def r5_lookup_table(chk, prog, handler_fns, conts):
+def r5_lookup_table(chk, prog, handler_fns=None, conts=None, rule='R5'):
     """Handler::processArg(): which argument a key is dispatched to, for EVERY combination of what the key containers
     of the handler hold for that key - nothing / an argument with exactly this key / one argument it abbreviates /
     several arguments it abbreviates.  The lookup code is evaluated abstractly (Engine B) with the container lookups
@@ -429,6 +429,9 @@ def r5_lookup_table(chk, prog, handler_fns, conts):
     the abbreviation is ambiguous; an exact-only lookup: exact match or null) up to the first dispatch
     (handleIdentifiedArg), throw or return.  Expected: an exact key always selects its own argument; otherwise one
     abbreviation match in total selects that argument, none is 'unknown', more than one is an exception."""
+    if conts is None:
+        conts = key_containers(prog)
+        handler_fns = [f for f in prog.functions if f.classq == 'celma::prog_args::Handler' and f.body is not None]
     fs = [f for f in handler_fns if f.short == 'processArg']
     chk.require(len(fs) == 1, 'Handler::processArg not found')
     f = fs[0]
@@ -522,10 +525,84 @@ def r5_lookup_table(chk, prog, handler_fns, conts):
             if o[0] == 'throw':
                 return 'throws'
             return 'returns %s' % {v: k for k, v in res_vals.items()}.get(o[1], o[1])
-        chk.check(ok, 'R5', f.name, 'key lookup over both containers [%s]: %s' % (
+        chk.check(ok, rule, f.name, 'key lookup over both containers [%s]: %s' % (
             ', '.join('%s: %s' % (c, state[c]) for c in order), show(want)), f.loc(),
             'processArg %s' % show(out))
     chk.require(n >= 12, 'lookup combinations evaluated: %d' % n)
+
+
+def r7_two_part_spec(chk, prog, rule='R7'):
+    """ArgumentKey( "a,bcd") / ( "bcd,a"): in every branch of the two-part case the short key is the character of the
+    part that the branch condition knows to be one character long, and the long key is the OTHER part; the two parts
+    are cut out in front of and behind the separator."""
+    fs = [f for f in prog.functions if (f.classq or '') == 'celma::prog_args::detail::ArgumentKey' and f.d.get('ctor')
+          and f.params and 'basic_string' in f.params[0]['t']]
+    chk.require(len(fs) == 1, 'ArgumentKey( const std::string&) not found')
+    f = fs[0]
+    cfg = f.cfg
+
+    def local_string(n):
+        n = strip_all_casts(n)
+        if n.get('k') == 'DeclRefExpr' and n['ref'].get('sto') == 'local' and 'basic_string' in (n['ref'].get('dt') or ''):
+            return n['ref'].get('name')
+        return None
+    # the two parts: local strings initialised from substr() of the specification
+    parts = {}
+    for ds in (x for x in f.walk() if x.get('k') == 'DeclStmt'):
+        for d in ds.get('decls', []):
+            init = d.get('init')
+            if isinstance(init, dict) and 'basic_string' in (d.get('t') or ''):
+                sub = [c for c in walk(init) if c.get('k') in CALL_KINDS and callee_is(c, 'substr')]
+                if sub:
+                    a = call_args(sub[0])
+                    first = strip_all_casts(a[0]) if a else {}
+                    parts[d['name']] = 'front' if (first.get('k') == 'IntegerLiteral' and first.get('val') == 0) \
+                        else 'behind'
+    chk.require(len(parts) == 2, 'two-part specification: parts found: %s' % sorted(parts))
+    chk.check(sorted(parts.values()) == ['behind', 'front'], rule, f.name, 'the two parts are the text in front of and '
+              'behind the separator', f.loc(), '%s' % parts)
+
+    def one_char_guards(pos):
+        """names of the parts known to be exactly one character long at pos"""
+        g = set()
+        for bid, cond in cfg.cond_blocks():
+            c = strip_all_casts(cond) if cond else None
+            if not c or c.get('k') != 'BinaryOperator' or c.get('op') != '==':
+                continue
+            l, r = (strip_all_casts(x) for x in children(c))
+            if r.get('k') in CALL_KINDS:
+                l, r = r, l
+            if l.get('k') in CALL_KINDS and (callee_is(l, 'length') or callee_is(l, 'size')) and \
+                    r.get('k') == 'IntegerLiteral' and r.get('val') == 1 and cfg.guarded_by_edge(pos, bid, 0):
+                nm = local_string(object_of(l))
+                if nm:
+                    g.add(nm)
+        return g
+    n = 0
+    chars, words = [], []
+    for x in f.walk():
+        if x.get('k') == 'BinaryOperator' and x.get('op') == '=' and field_name(children(x)[0]) == 'mChar':
+            r = strip_all_casts(children(x)[1])
+            if r.get('k') == 'CXXOperatorCallExpr' and r.get('op') == '[]' and local_string(call_args(r)[0]) in parts:
+                chars.append((x, local_string(call_args(r)[0]), strip_all_casts(call_args(r)[1])))
+        if x.get('k') == 'CXXOperatorCallExpr' and x.get('op') == '=' and field_name(call_args(x)[0]) == 'mWord':
+            nm = local_string(call_args(x)[1])
+            if nm in parts:
+                words.append((x, nm))
+    chk.require(len(chars) >= 2 and len(words) >= 2, 'two-part specification: stores of the short/long key: %d/%d' % (
+        len(chars), len(words)))
+    for x, nm, idx in chars:
+        g = one_char_guards(cfg.position(x))
+        n += 1
+        chk.check(nm in g and idx.get('k') == 'IntegerLiteral' and idx.get('val') == 0, rule, f.name,
+                  'the short key is the character of the part that is one character long', f.loc(x),
+                  'takes %s[ %s], known to be one character long here: %s' % (nm, idx.get('val'), sorted(g) or 'none'))
+    for x, nm in words:
+        g = one_char_guards(cfg.position(x))
+        n += 1
+        chk.check(bool(g) and nm not in g, rule, f.name, 'the long key is the other part', f.loc(x),
+                  'takes %s, the one-character part here: %s' % (nm, sorted(g) or 'none'))
+    return n
 
 
 def r6_key_parsing(chk, prog):
@@ -619,7 +696,8 @@ def run(chk):
         'plus exhaustive truth tables (Engine B) of ArgumentKey::operator== and mismatch() over all '
         'assignments of empty/equal/different short and long keys; ArgumentKey::startsWith is proved to be exactly the '
         'non-empty-prefix predicate from the meaning of the std::string operation it is based on (Engine C observation '
-        'facts). Not decided: parsing of key specifications.')
+        'facts); the key-specification parser: exactly the leading dashes are removed (Engine C), and in the two-part form the '
+        'short key is taken from the part known to be one character long, the long key from the other part.')
     chk.assumptions = ['std::vector/std::string behave as documented']
     chk.rule('R1', 'duplicate / contradicting keys are refused when an argument is added', 10)
     chk.rule('R2', 'lookup: exact match wins, abbreviation only if enabled, ambiguity throws', 4)
@@ -633,3 +711,5 @@ def run(chk):
     r5_one_key_space(chk, prog)
     chk.rule('R6', 'key parsing removes exactly the leading dashes', 1)
     r6_key_parsing(chk, prog)
+    chk.rule('R7', 'two-part key specification: short key from the one-character part, long key from the other', 5)
+    r7_two_part_spec(chk, prog)
